@@ -148,7 +148,7 @@ Lemma elastic_formulas dx dy md nu : 0 < dist dx dy md ->
   g_nn dx dy md nu = (3 - nu) * ln r + (1 + nu) * dx ^ 2 / r ^ 2 /\
   g_ne dx dy md nu = - (1 + nu) * dx * dy / r ^ 2.
 Proof.
-  intros H r. unfold g_ee, g_nn, g_ne, el_ln, el_over. fold r.
+  intros H r. unfold g_ee, g_nn, g_ne, el_ln. fold r.
   assert (r <> 0) by (unfold r; lra).
   repeat split; field; assumption.
 Qed.
@@ -179,11 +179,31 @@ Proof.
   simpl. rewrite Rmult_1_r. apply Rmult_lt_0_compat; assumption.
 Qed.
 
+(** the ratios the code forms are bounded by 1 (no overflow however small the distance):
+    hence every term but the logarithm is bounded by |1 + nu| *)
+Lemma elastic_ratio_bounded dx dy md : 0 <= md -> 0 < dist dx dy md ->
+  Rabs (dx / dist dx dy md) <= 1 /\ Rabs (dy / dist dx dy md) <= 1.
+Proof.
+  intros Hm Hd.
+  assert (B: forall a b, Rabs a <= sqrt (a * a + b * b)).
+  { intros a b. rewrite <- sqrt_Rsqr_abs. apply sqrt_le_1_alt. unfold Rsqr. nra. }
+  assert (Hx: Rabs dx <= dist dx dy md) by (unfold dist; pose proof (B dx dy); lra).
+  assert (Hy: Rabs dy <= dist dx dy md).
+  { unfold dist. pose proof (B dy dx) as H. replace (dy * dy + dx * dx) with (dx * dx + dy * dy) in H by ring. lra. }
+  assert (Hi: 0 < / dist dx dy md) by (apply Rinv_0_lt_compat; exact Hd).
+  unfold Rdiv. rewrite !Rabs_mult, (Rabs_right (/ dist dx dy md)) by lra.
+  split.
+  - apply Rmult_le_reg_r with (dist dx dy md); [exact Hd|].
+    rewrite Rmult_assoc, Rinv_l by lra. lra.
+  - apply Rmult_le_reg_r with (dist dx dy md); [exact Hd|].
+    rewrite Rmult_assoc, Rinv_l by lra. lra.
+Qed.
+
 (** coincident points: ee = nn = (3 - nu) ln mindist, ne = 0 *)
 Lemma elastic_coincident md nu : 0 < md ->
   g_ee 0 0 md nu = (3 - nu) * ln md /\ g_nn 0 0 md nu = (3 - nu) * ln md /\ g_ne 0 0 md nu = 0.
 Proof.
-  intros H. unfold g_ee, g_nn, g_ne, el_ln, el_over. rewrite dist_coincident.
+  intros H. unfold g_ee, g_nn, g_ne, el_ln. rewrite dist_coincident.
   assert (md <> 0) by lra. repeat split; field; assumption.
 Qed.
 
@@ -192,16 +212,16 @@ Lemma elastic_uncoupled dx dy md : 0 < dist dx dy md ->
   g_ne dx dy md (-1) = 0 /\ g_ee dx dy md (-1) = 4 * ln (dist dx dy md) /\
   g_nn dx dy md (-1) = 4 * ln (dist dx dy md).
 Proof.
-  intros H. unfold g_ee, g_nn, g_ne, el_ln, el_over.
+  intros H. unfold g_ee, g_nn, g_ne, el_ln.
   assert (dist dx dy md <> 0) by lra. repeat split; field; assumption.
 Qed.
 
 Lemma g_ee_even dx dy md nu : g_ee (- dx) (- dy) md nu = g_ee dx dy md nu.
-Proof. unfold g_ee. rewrite dist_even. f_equal. f_equal. ring. Qed.
+Proof. unfold g_ee. rewrite dist_even. unfold Rdiv. ring. Qed.
 Lemma g_nn_even dx dy md nu : g_nn (- dx) (- dy) md nu = g_nn dx dy md nu.
-Proof. unfold g_nn. rewrite dist_even. f_equal. f_equal. ring. Qed.
+Proof. unfold g_nn. rewrite dist_even. unfold Rdiv. ring. Qed.
 Lemma g_ne_even dx dy md nu : g_ne (- dx) (- dy) md nu = g_ne dx dy md nu.
-Proof. unfold g_ne. rewrite dist_even. ring. Qed.
+Proof. unfold g_ne. rewrite dist_even. unfold Rdiv. ring. Qed.
 
 (** the 2x2 block layout: the same J_ne in both off-diagonal blocks *)
 Lemma elastic_block_layout pts forces md nu i j :
